@@ -122,6 +122,11 @@ class GridDistortion:
                         (data['yp'] - data['yr'])**2)
         rp = np.sqrt(data['xp']**2 + data['yp']**2)
 
-        data['max_distortion'] = np.nanmax(100 * delta / rp)
+        # the axial node of an odd grid has no relative distortion: its
+        # predicted radius is zero up to rounding of the grid coordinates
+        off_axis = rp > 1e-9 * np.nanmax(rp)
+        relative = np.full_like(rp, np.nan)
+        relative[off_axis] = 100 * delta[off_axis] / rp[off_axis]
+        data['max_distortion'] = np.nanmax(relative)
 
         return data
